@@ -26,7 +26,10 @@ MinMaxEv(e) == LET S == SliceVals(e.kind, e.sh, e.fix) IN Verdict(e, <<
 SlotEv(e) == Verdict(e, <<
     <<"collect-completes", e.ok>>,
     <<"written-to-own-time-slot", e.ok => e.written = <<Slot(e.step, e.S)>> >> >>)
+\* the line printed for a slot shows the eight reduced quantities of that slot in the documented column order
+LineEv(e) == Verdict(e, << <<"printed-line-equals-reduced-quantities", e.ok>> >>)
 Event(e) == CASE e.k \in {"diag", "reduce"} -> DiagEv(e)
+              [] e.k = "line" -> LineEv(e)
               [] e.k = "volume" -> VolumeEv(e)
               [] e.k = "minmax" -> MinMaxEv(e)
               [] e.k = "slot" -> SlotEv(e)
